@@ -709,4 +709,68 @@ def run (e : Bool) (ss : List Step) : T := ss.foldl (step e) T.init
 
 end Tick
 
+/-! ### Side model `WalOpen`: how a leader-side partition comes into being
+
+`writeAheadLog.GetOrCreatePartition` (replica/wal.go), called first by every broker write stream
+(`WriteHandler.Write`): under `w.mutex` — lookup in `familyLogs`; when absent: GetShard, GetOrCrateDataFamily,
+NewFanOutQueue over the log directory, NewPartition, StartReplica, store in `familyLogs`; unlock on return.
+A Partition object owns the in-memory append / consume / acknowledge cursors of one log directory, so the number of
+objects per directory is what the log model of this file (one `L` per leader) silently assumes to be one.
+Atomic steps of any number of concurrent write streams for ONE key (index = stream):
+
+* `call i`  — stream i enters: it finds the partition (done), or enters the open (held: the slow part, the harness
+  holds it inside GetOrCrateDataFamily), or — shape `lockAcross`, the tree's — waits for the mutex (blocked);
+* `go i`    — the held stream i finishes the open: one more Partition object over the directory, stored, returned;
+  the streams waiting for the mutex then find it;
+* `write i` — a returned stream writes one message; `drain` — replication catches up (one object: the `St` model).
+
+`lockAcross = false` is the shape with two critical sections (lookup; store) and no re-check. -/
+namespace WalOpen
+
+inductive Pc where | idle | held | blocked | done
+  deriving DecidableEq, Repr
+
+structure W where
+  pcs : List Pc
+  inOpen : Nat := 0     -- streams inside the open (shape lockAcross: the mutex is held iff this is not 0)
+  cached : Bool := false -- familyLogs[key] present
+  opens : Nat := 0      -- times the log directory was opened
+  parts : Nat := 0      -- Partition objects created over the directory
+  app : Nat := 0        -- messages accepted by the leader
+  fol : Nat := 0        -- messages on the follower at the last drain
+  deriving Repr
+
+def W.init (n : Nat) : W := { pcs := List.replicate n .idle }
+
+inductive Step where | call (i : Nat) | go (i : Nat) | write (i : Nat) | drain
+  deriving DecidableEq, Repr
+
+def wake : Pc → Pc
+  | .blocked => .done
+  | p => p
+
+def step (lockAcross : Bool) (w : W) : Step → W
+  | .call i =>
+    match w.pcs[i]? with
+    | some .idle =>
+      if w.cached then { w with pcs := w.pcs.set i .done }
+      else if lockAcross && decide (0 < w.inOpen) then { w with pcs := w.pcs.set i .blocked }
+      else { w with pcs := w.pcs.set i .held, inOpen := w.inOpen + 1, opens := w.opens + 1 }
+    | _ => w
+  | .go i =>
+    match w.pcs[i]? with
+    | some .held =>
+      let pcs := w.pcs.set i .done
+      { w with pcs := if w.inOpen ≤ 1 then pcs.map wake else pcs, inOpen := w.inOpen - 1, cached := true, parts := w.parts + 1 }
+    | _ => w
+  | .write i =>
+    match w.pcs[i]? with
+    | some .done => { w with app := w.app + 1 }
+    | _ => w
+  | .drain => if w.parts ≤ 1 then { w with fol := w.app } else w
+
+def run (lockAcross : Bool) (n : Nat) (ss : List Step) : W := ss.foldl (step lockAcross) (W.init n)
+
+end WalOpen
+
 end LinVerif.Replication
